@@ -98,6 +98,17 @@ def simplify_cases(draw, tier):
     opts = {'target': target, 'cycle': (not big) and draw(st.booleans()), 'all': draw(st.integers(0, 6)) != 0}
     pk = 'dyadic' if mode == 'dyadic' else 'mixed'
     pts = draw(st.lists(E.points(n, pk), min_size=8, max_size=8))
+    if draw(st.integers(0, 5)) == 0:
+        # one of the numbers of the system is handed over by name through the documented locals= option - also under a
+        # name that the math / numpy namespaces define
+        vals = []
+        for r in system:
+            vals += [float(c_[1]) for c_ in E.subtrees(r, 'const')]
+            for l_ in E.subtrees(r, 'lin'):
+                vals += [float(c) for _, c in l_[1]] + ([float(l_[2])] if l_[2] is not None else [])
+        vals = [v for v in vals if v == v and abs(v) not in (0.0, 1.0) and abs(v) < 1e15]
+        if vals:
+            style['named'] = [draw(st.sampled_from(['tau', 'e', 'pi', 'kappa', 'c_0'])), vals[draw(st.integers(0, len(vals) - 1))]]
     return dict(nvars=n, system=system, scheme=scheme, style=style, opts=opts, points=pts,
                 seed=draw(st.integers(0, 2 ** 31 - 1)))
 
@@ -390,6 +401,9 @@ def call_simplify(case, ctx, names, variables, text):
         kw['target'] = [names[i] for i in opts['target']]
     if opts['cycle']:
         kw['cycle'] = True
+    if case['style'].get('named'):
+        kw['locals'] = {case['style']['named'][0]: float(case['style']['named'][1])}
+        ctx.label('constant-through-locals:' + case['style']['named'][0])
     lab.seed_rng(case['seed'])
     try:
         try:
@@ -496,6 +510,8 @@ def run_simplify(case, ctx):
             ctx.exclude('point:near-input-boundary(%s)' % tag)
             continue
         pd = E.point_dict(p, names)
+        if case['style'].get('named'):       # (should the result keep the name instead of the number)
+            pd[case['style']['named'][0]] = float(case['style']['named'][1])
         per_case = [E.text_truth(c, pd, exact, OUT_BAND, vouched) for c in cases]
         got = E.any_truth(per_case)
         if got is NEAR:
